@@ -43,6 +43,7 @@ type h4Leaf struct {
 	kind int
 	s    string    // h4Const
 	v    ssa.Value // h4Value, h4Resp
+	env  g5Env     // when v belongs to a helper that returned (part of) the text: its parameter bindings
 }
 
 // h4Edge is the control-flow edge pred -> to that selects an alternative of a phi.
@@ -52,6 +53,7 @@ type h4Edge struct{ pred, to *ssa.BasicBlock }
 type h4Alt struct {
 	leaves []h4Leaf
 	edges  []h4Edge
+	conds  []Cond // conditions dominating the return of a helper that handed back (part of) the text
 }
 
 const h4MaxAlts = 24
@@ -63,6 +65,7 @@ func h4Cross(a, b []h4Alt) []h4Alt {
 			alt := h4Alt{}
 			alt.leaves = append(append(alt.leaves, x.leaves...), y.leaves...)
 			alt.edges = append(append(alt.edges, x.edges...), y.edges...)
+			alt.conds = append(append(alt.conds, x.conds...), y.conds...)
 			out = append(out, alt)
 		}
 	}
@@ -73,13 +76,47 @@ func h4Cross(a, b []h4Alt) []h4Alt {
 // computation. A value that is not a constant, concatenation, non-loop phi, Sprintf with a
 // constant format or once-stored local is an opaque leaf.
 func h4TextAlts(v ssa.Value, isResp func(ssa.Value) bool, depth int) []h4Alt {
-	opaque := []h4Alt{{leaves: []h4Leaf{{kind: h4Value, v: v}}}}
+	return h4TextAltsX(v, isResp, nil, depth, 0)
+}
+
+// h4TextAltsX is h4TextAlts that additionally (helpers > 0) follows a static call of a
+// same-package function with a single string result: one alternative per return of the helper,
+// carrying the conditions that dominate that return; the helper's parameters are bound to the
+// arguments of the call (env), its values keep that binding in their leaves. helpers is the number
+// of nested helper levels still allowed.
+func h4TextAltsX(v ssa.Value, isResp func(ssa.Value) bool, env g5Env, depth, helpers int) []h4Alt {
+	opaque := []h4Alt{{leaves: []h4Leaf{{kind: h4Value, v: v, env: env}}}}
 	if v == nil || depth > 10 {
 		return opaque
 	}
 	v = unwrap(v)
 	if isResp(v) {
-		return []h4Alt{{leaves: []h4Leaf{{kind: h4Resp, v: v}}}}
+		return []h4Alt{{leaves: []h4Leaf{{kind: h4Resp, v: v, env: env}}}}
+	}
+	if p, ok := v.(*ssa.Parameter); ok {
+		if a, bound := env[p]; bound {
+			return h4TextAltsX(a, isResp, env, depth+1, helpers)
+		}
+	}
+	if call, ok := v.(*ssa.Call); ok && helpers > 0 && call.Parent() != nil {
+		callee := call.Call.StaticCallee()
+		if callee != nil && callee.Blocks != nil && callee != call.Parent() && pkgRel(callee) == pkgRel(call.Parent()) && callee.Signature.Results().Len() == 1 && callee.Recover == nil {
+			if b, isB := callee.Signature.Results().At(0).Type().Underlying().(*types.Basic); isB && b.Info()&types.IsString != 0 {
+				if env2, okE := env.with(callee, call); okE {
+					var out []h4Alt
+					for _, ret := range returnsOf(callee) {
+						for _, a := range h4TextAltsX(ret.Results[0], isResp, env2, depth+1, helpers-1) {
+							a.conds = append(append([]Cond(nil), a.conds...), condsAt(ret.Block())...)
+							out = append(out, a)
+						}
+					}
+					if len(out) > 0 && len(out) <= h4MaxAlts {
+						return out
+					}
+					return opaque
+				}
+			}
+		}
 	}
 	switch x := v.(type) {
 	case *ssa.Const:
@@ -91,7 +128,7 @@ func h4TextAlts(v ssa.Value, isResp func(ssa.Value) bool, depth int) []h4Alt {
 		}
 	case *ssa.BinOp:
 		if x.Op == token.ADD {
-			out := h4Cross(h4TextAlts(x.X, isResp, depth+1), h4TextAlts(x.Y, isResp, depth+1))
+			out := h4Cross(h4TextAltsX(x.X, isResp, env, depth+1, helpers), h4TextAltsX(x.Y, isResp, env, depth+1, helpers))
 			if len(out) > h4MaxAlts {
 				return opaque
 			}
@@ -105,7 +142,7 @@ func h4TextAlts(v ssa.Value, isResp func(ssa.Value) bool, depth int) []h4Alt {
 		}
 		var out []h4Alt
 		for i, e := range x.Edges {
-			for _, a := range h4TextAlts(e, isResp, depth+1) {
+			for _, a := range h4TextAltsX(e, isResp, env, depth+1, helpers) {
 				a.edges = append(append([]h4Edge(nil), a.edges...), h4Edge{x.Block().Preds[i], x.Block()})
 				out = append(out, a)
 			}
@@ -117,13 +154,13 @@ func h4TextAlts(v ssa.Value, isResp func(ssa.Value) bool, depth int) []h4Alt {
 	case *ssa.Call:
 		if callName(&x.Call) == "fmt.Sprintf" {
 			if f, ok := constString(x.Call.Args[0]); ok {
-				return h4ExpandFormat(f, h4VarArgs(x, 1), isResp, depth+1)
+				return h4ExpandFormatX(f, h4VarArgs(x, 1), isResp, env, depth+1, helpers)
 			}
 		}
 	case *ssa.UnOp:
 		if x.Op == token.MUL {
 			if o := origin(x); o != ssa.Value(x) {
-				return h4TextAlts(o, isResp, depth+1)
+				return h4TextAltsX(o, isResp, env, depth+1, helpers)
 			}
 		}
 	}
@@ -169,6 +206,10 @@ func h4VarArgs(ci ssa.CallInstruction, argIdx int) []ssa.Value {
 
 // h4ExpandFormat substitutes the operands of plain %s / %v verbs (strings) into a constant format.
 func h4ExpandFormat(format string, args []ssa.Value, isResp func(ssa.Value) bool, depth int) []h4Alt {
+	return h4ExpandFormatX(format, args, isResp, nil, depth, 0)
+}
+
+func h4ExpandFormatX(format string, args []ssa.Value, isResp func(ssa.Value) bool, env g5Env, depth, helpers int) []h4Alt {
 	verbs, tail := parseVerbs(format)
 	out := []h4Alt{{}}
 	lit := func(s string) {
@@ -190,9 +231,9 @@ func h4ExpandFormat(format string, args []ssa.Value, isResp func(ssa.Value) bool
 			}
 		}
 		if plain && isStr {
-			out = h4Cross(out, h4TextAlts(arg, isResp, depth+1))
+			out = h4Cross(out, h4TextAltsX(arg, isResp, env, depth+1, helpers))
 		} else {
-			out = h4Cross(out, []h4Alt{{leaves: []h4Leaf{{kind: h4Value, v: arg}}}})
+			out = h4Cross(out, []h4Alt{{leaves: []h4Leaf{{kind: h4Value, v: arg, env: env}}}})
 		}
 		if len(out) > h4MaxAlts {
 			return []h4Alt{{leaves: []h4Leaf{{kind: h4Value}}}}
@@ -241,6 +282,12 @@ var h4PlainWrite = map[string]bool{"fmt.Fprintf": true, "fmt.Fprint": true, "io.
 // h4WrittenText: the alternatives of the text a call writes, when the call is one of the plain
 // write forms (Fprintf with a constant format, WriteString); ok is false for other calls.
 func h4WrittenText(ci ssa.CallInstruction, isResp func(ssa.Value) bool) ([]h4Alt, bool) {
+	return h4WrittenTextX(ci, isResp, 0)
+}
+
+// h4WrittenTextX: helpers > 0 lets strings handed back by same-package helpers contribute their
+// alternatives (h4TextAltsX).
+func h4WrittenTextX(ci ssa.CallInstruction, isResp func(ssa.Value) bool, helpers int) ([]h4Alt, bool) {
 	args := ci.Common().Args
 	switch callName(ci.Common()) {
 	case "fmt.Fprintf":
@@ -249,14 +296,14 @@ func h4WrittenText(ci ssa.CallInstruction, isResp func(ssa.Value) bool) ([]h4Alt
 		}
 		f, ok := constString(args[1])
 		if !ok {
-			return h4TextAlts(args[1], isResp, 0), true
+			return h4TextAltsX(args[1], isResp, nil, 0, helpers), true
 		}
-		return h4ExpandFormat(f, h4VarArgs(ci, 2), isResp, 0), true
+		return h4ExpandFormatX(f, h4VarArgs(ci, 2), isResp, nil, 0, helpers), true
 	case "io.WriteString", "bufio.Writer.WriteString", "bytes.Buffer.WriteString", "strings.Builder.WriteString":
 		if len(args) < 2 {
 			return nil, false
 		}
-		return h4TextAlts(args[1], isResp, 0), true
+		return h4TextAltsX(args[1], isResp, nil, 0, helpers), true
 	case "fmt.Fprint":
 		// operands that are all strings are written back to back
 		vals := h4VarArgs(ci, 1)
@@ -268,7 +315,7 @@ func h4WrittenText(ci ssa.CallInstruction, isResp func(ssa.Value) bool) ([]h4Alt
 			if b, ok := unwrap(a).Type().Underlying().(*types.Basic); !ok || b.Info()&types.IsString == 0 {
 				return []h4Alt{{leaves: []h4Leaf{{kind: h4Value}}}}, true
 			}
-			out = h4Cross(out, h4TextAlts(a, isResp, 0))
+			out = h4Cross(out, h4TextAltsX(a, isResp, nil, 0, helpers))
 			if len(out) > h4MaxAlts {
 				return []h4Alt{{leaves: []h4Leaf{{kind: h4Value}}}}, true
 			}
@@ -324,6 +371,19 @@ func h4NonEmptyFact(cd Cond, v ssa.Value) bool {
 	return false
 }
 
+// h4LeafPath renders a value leaf as an access path in the terms of fn (a leaf of a helper frame has
+// its parameters replaced by the arguments of the call); "" when it has no name there.
+func h4LeafPath(l h4Leaf, fn *ssa.Function) string {
+	if l.v == nil {
+		return ""
+	}
+	p, ok := g5Path(unwrap(l.v), l.env, fn)
+	if !ok {
+		return ""
+	}
+	return p
+}
+
 // c16AuxPairs is the auxiliary-pair part of C16-reply: every alternative of every write of fn that
 // carries a response (or a '|') must be exactly " " + <address> + "|" + secureLoginResponse(chal,
 // callback(<that address>)#0) and be selected only where the password is known to be non-empty.
@@ -335,12 +395,15 @@ func c16AuxPairs(c *Ctx, r *Report, fn *ssa.Function, chal ssa.Value) {
 	}
 	nPair := 0
 	for _, ci := range allCalls(fn) {
-		alts, ok := h4WrittenText(ci, isRespV)
+		alts, ok := h4WrittenTextX(ci, isRespV, 2)
 		if !ok {
 			continue
 		}
 		for _, alt := range alts {
 			leaves := h4Merge(alt.leaves)
+			if len(leaves) > 0 && leaves[0].kind == h4Const && strings.HasPrefix(leaves[0].s, ";PR") {
+				continue // the ;PR line: another role, decided by the ";PR response" obligation
+			}
 			carries := false
 			for _, l := range leaves {
 				if l.kind == h4Resp || l.kind == h4Const && strings.Contains(l.s, "|") {
@@ -359,14 +422,13 @@ func c16AuxPairs(c *Ctx, r *Report, fn *ssa.Function, chal ssa.Value) {
 			case leaves[0].s != " " || leaves[2].s != "|":
 				o.Bad("pair format is %s, expected \" %%s|%%s\"", h4Render(leaves))
 				continue
-			case leaves[1].v == nil || !strings.HasSuffix(pathOf(unwrap(leaves[1].v)), ".Addr"):
+			case leaves[1].v == nil || !strings.HasSuffix(h4LeafPath(leaves[1], fn), ".Addr"):
 				o.Bad("the first element of the pair is not the auxiliary address")
 				continue
 			case leaves[3].kind != h4Resp:
 				o.Bad("the second element of the pair is not a secureLoginResponse")
 				continue
 			}
-			a0 := unwrap(leaves[1].v)
 			resp := leaves[3].v.(*ssa.Call)
 			var src ssa.CallInstruction
 			if ex, ok := resp.Call.Args[1].(*ssa.Extract); ok && ex.Index == 0 {
@@ -375,20 +437,24 @@ func c16AuxPairs(c *Ctx, r *Report, fn *ssa.Function, chal ssa.Value) {
 				}
 			}
 			guarded := false
+			forAddr := ""
 			if src != nil {
-				for _, cd := range h4CondsOfAlt(ci, alt) {
+				// conditions at the write, on the phi edges selecting the alternative, and (response
+				// computed in a helper) dominating the helper's return - there in the helper's own terms
+				for _, cd := range append(h4CondsOfAlt(ci, alt), alt.conds...) {
 					if h4NonEmptyFact(cd, resp.Call.Args[1]) {
 						guarded = true
 					}
 				}
+				forAddr, _ = g5Path(src.Common().Args[0], leaves[3].env, fn)
 			}
 			switch {
-			case resp.Call.Args[0] != chal:
+			case g5Resolve(resp.Call.Args[0], leaves[3].env) != chal:
 				o.Bad("the response is not computed from the remote's challenge")
 			case src == nil:
 				o.Bad("the response is not computed from the callback's password")
-			case pathOf(src.Common().Args[0]) != strings.TrimSuffix(pathOf(a0), ".Addr"):
-				o.Bad("the password is requested for %s but the pair names %s", pathOf(src.Common().Args[0]), pathOf(a0))
+			case forAddr != strings.TrimSuffix(h4LeafPath(leaves[1], fn), ".Addr"):
+				o.Bad("the password is requested for %s but the pair names %s", forAddr, h4LeafPath(leaves[1], fn))
 			case !guarded:
 				o.Bad("the pair is written without the 'password known' edge dominating it")
 			default:
@@ -1073,6 +1139,7 @@ type h4FieldInit struct {
 // constructor that allocates it and fills the fields from its parameters (bound to the arguments
 // of the call). Anything else: none.
 func (c *Ctx) h4FieldInits(root ssa.Value) []h4FieldInit {
+	root = h4rRoot(root) // the pointer may be kept in a once-assigned local (ip_h4r3.go)
 	var out []h4FieldInit
 	fromAlloc := func(al *ssa.Alloc, bind func(ssa.Value) ssa.Value) {
 		if al.Referrers() == nil {
